@@ -30,18 +30,19 @@ ASSUMPTIONS = ['arrangements preserve meaning by construction on my AST (same-mo
 REPORT = ['modules', 'arrangements', 'evaluations', 'byte_comparisons', 'decode_comparisons', 'arrangement:inline_refs',
           'arrangement:extract_types', 'arrangement:split_module', 'arrangement:permute_modules',
           'arrangement:permute_assignments', 'inlined_optional_or_default', 'carved_out']
-FLOORS = {'quick': {'arrangements': 300, 'byte_comparisons': 30000}, 'thorough': {'arrangements': 3000}}
+FLOORS = {'quick': {'arrangements': 300, 'byte_comparisons': 30000},
+          'thorough': {'arrangements': 1200, 'byte_comparisons': 120000}}
 TIMEOUT = {'quick': 1800, 'thorough': 14000}
 
 
 def shards(tier):
-    return 32 if tier == 'quick' else 128
+    return 32 if tier == 'quick' else 64
 
 
 def params(tier):
     if tier == 'quick':
         return {'modules': 3, 'values': 5}
-    return {'modules': 14, 'values': 8}
+    return {'modules': 9, 'values': 8}
 
 
 def profile(tier):
